@@ -61,6 +61,11 @@ func (o verOp) String() string {
 			return "set-versioning Enabled+MfaDelete"
 		}
 		return "set-versioning Suspended+MfaDelete"
+	case "setver-nostatus":
+		if o.enable {
+			return "set-versioning <MfaDelete>Disabled</MfaDelete> only"
+		}
+		return "set-versioning <VersioningConfiguration/>"
 	case "copy":
 		return "copy " + o.k + " -> " + o.body
 	}
@@ -131,6 +136,7 @@ func (s *verSys) Ops() []engine.Op {
 	ops = append(ops, verOp{kind: "setver", enable: true}, verOp{kind: "setver", enable: false})
 	// a configuration request the server refuses (MFA delete is not implemented) asking for the other status
 	ops = append(ops, verOp{kind: "setver-mfa", enable: s.m.Status != "Enabled"})
+	ops = append(ops, verOp{kind: "setver-nostatus"}, verOp{kind: "setver-nostatus", enable: true})
 	for _, k := range s.keys {
 		for i, e := range s.m.Keys[k] {
 			if e.ID != "" {
@@ -366,6 +372,25 @@ func (s *verSys) apply(op engine.Op) (string, *engine.Violation) {
 			return respSig(r), s.verBad("setver", "reported-status", "-", "GET ?versioning reports %q, want %q", got, s.m.Status)
 		}
 		s.syncIDs()
+		return respSig(r), nil
+	case "setver-nostatus":
+		// a configuration that names no status asks for no change of status
+		body := "<VersioningConfiguration/>"
+		if o.enable {
+			body = "<VersioningConfiguration><MfaDelete>Disabled</MfaDelete></VersioningConfiguration>"
+		}
+		r := s.w.Do(drv.Req{Method: "PUT", Path: "/" + s.bucket, Query: "versioning", Body: []byte(body)})
+		if r.Panic != "" || r.Status >= 500 {
+			return respSig(r), s.verBad("setver-nostatus", "status", "-", "answered %s", r.Short())
+		}
+		gv := s.w.Do(drv.Req{Method: "GET", Path: "/" + s.bucket, Query: "versioning"})
+		got := ""
+		if n := gv.XML(); n != nil {
+			got = n.T("Status")
+		}
+		if got != s.m.Status {
+			return respSig(r), s.verBad("setver-nostatus", "status-changed", "-", "a versioning configuration without a Status (answered %s) changed the status from %q to %q", r.Short(), s.m.Status, got)
+		}
 		return respSig(r), nil
 	case "setver-mfa":
 		st := "Suspended"
